@@ -2238,3 +2238,25 @@ def replay_symbol_battery(model, obligation, prop=None):
         if probs:
             return dict(confirmed=True, call=call, detail='; '.join(str(p) for p in probs[:3]))
     return dict(confirmed=False, detail='%d real symbols read back without a problem' % tried)
+
+
+def replay_sequence_mask(model, obligation, content, kw, mask):
+    """native: make_sequence with this mask argument: a valid spelling is honoured by every symbol, everything else is refused with ValueError"""
+    import ast
+    k, m = ast.literal_eval(kw), ast.literal_eval(mask)
+    call = 'segno.make_sequence(%r, mask=%r, **%r)' % (content if len(content) < 20 else content[:20] + '...', m, k)
+    try:
+        cm = None if m is None else int(m)
+        valid = m is None or (not isinstance(m, float) and 0 <= cm <= 7)
+    except (TypeError, ValueError):
+        valid, cm = False, None
+    try:
+        seq = segno.make_sequence(content, mask=m, **k)
+    except ValueError as ex:
+        return dict(confirmed=valid, call=call, detail='refused: %s' % ex)
+    except Exception as ex:
+        return dict(confirmed=True, call=call, detail='raised %r' % (ex,))
+    if not valid:
+        return dict(confirmed=True, call=call, detail='accepted, masks %r' % [q.mask for q in seq])
+    bad = cm is not None and any(q.mask != cm for q in seq)
+    return dict(confirmed=bad, call=call, detail='masks of the symbols %r' % [q.mask for q in seq])
